@@ -885,6 +885,14 @@ func init() {
 		Run: func(t *testing.T, rng *rand.Rand, rec *sim.Rec, tier string, caseNo int) {
 			switch caseNo % 9 {
 			case 6:
+				if (caseNo/9)%3 == 2 {
+					// one client's Connect is dialling a peer that takes 20 s to answer while another
+					// allocation reaches its lifetime and a bystander keeps making requests: nobody
+					// waits for that dial
+					inBubble(t, func(t *testing.T) { runSlowConnect(t, rng, rec, tier, caseNo) })
+
+					return
+				}
 				inBubble(t, func(t *testing.T) { runC18TeardownInbound(t, rng, rec, tier, caseNo) })
 			case 7:
 				inBubble(t, func(t *testing.T) { runC18MassClose(t, rng, rec, tier, caseNo) })
